@@ -258,6 +258,13 @@ let run clause_prefix path =
           | None -> let (clause, what) = name_of y in
             report clause q (what ^ " next_processor_event=" ^ event_kind e ^ " (trace scan)")) in
      go TraceScan.YInit evs);
+    (let rec go l = function
+       | [] -> ()
+       | (q, e) :: rest ->
+         (match TraceScan.order_step l e with
+          | Some l' -> go l' rest
+          | None -> report "client_in_order" q ("callback_not_for_the_packet_just_received " ^ event_kind e ^ " (trace scan)")) in
+     go None evs);
     if not (TraceScan.scan_noack false all_events) then begin
       let rec first acc = function
         | [] -> "?"
@@ -330,4 +337,37 @@ let run clause_prefix path =
   ignore clause_prefix;
   Printf.printf "done cases=%d diffs=%d distinct=%d\n" !cases !diffs (Hashtbl.length classes)
 
-let () = register "c09" (run "C09"); register "c10" (run "C10")
+(* ---- client.Tracker against Tracker.v *)
+let rec z_of_int (n : int) : BinNums.coq_Z =
+  if n = 0 then BinNums.Z0 else if n > 0 then BinNums.Zpos (pos_of_int n) else BinNums.Zneg (pos_of_int (- n))
+let int_of_z = function BinNums.Z0 -> 0 | BinNums.Zpos p -> int_of_pos p | BinNums.Zneg p -> - (int_of_pos p)
+
+let run_tracker path =
+  let n = ref 0 and bad = ref 0 in
+  L.iter (fun line -> match words line with
+    | ["trk"; k; ops; outs] ->
+      incr n;
+      let t = ref (Tracker.tk_new (z_of_int 3600) (z_of_int 0)) in
+      let buf = Buffer.create 64 in
+      S.iter (fun o ->
+        (match o with
+         | 'p' -> t := Tracker.tk_ping !t
+         | 'o' -> t := Tracker.tk_pong !t
+         | _ -> t := Tracker.tk_reset !t (z_of_int 1));
+        Buffer.add_char buf (if Tracker.tk_pending !t then '1' else '0')) ops;
+      if Buffer.contents buf <> outs then begin incr bad;
+        Printf.printf "diff %s tracker Pending after %s: model=%s impl=%s\n" k
+          (if S.length ops > 40 then S.sub ops 0 40 ^ "..." else ops) (Buffer.contents buf) outs end
+    | ["trkw"; k; timeout; t0; t1; t2; t3; w] ->
+      incr n;
+      let z s = z_of_int (int_of_string s) in
+      (* last in [t0,t1], now in [t2,t3]; Window is antitone in now, monotone in last *)
+      let lo = int_of_z (Tracker.tk_window (Tracker.tk_reset (Tracker.tk_new (z timeout) (z "0")) (z t0)) (z t3))
+      and hi = int_of_z (Tracker.tk_window (Tracker.tk_reset (Tracker.tk_new (z timeout) (z "0")) (z t1)) (z t2)) in
+      let w = int_of_string w in
+      if w < lo || w > hi then begin incr bad;
+        Printf.printf "diff %s tracker Window=%d outside the model's interval [%d,%d]\n" k w lo hi end
+    | _ -> ()) (read_lines path);
+  Printf.printf "done cases=%d diffs=%d distinct=%d\n" !n !bad !n
+
+let () = register "c09" (run "C09"); register "c10" (run "C10"); register "c15" (run "C15"); register "tracker" run_tracker
